@@ -1,11 +1,14 @@
 #!/bin/bash
-# usage: trymut.sh <patch> <Cxx> [tier]  — apply a seeded change to /repo, run the check, undo.
+# usage: trymut.sh <patch | seeded id> <Cxx> [tier]  — apply a seeded change to /repo, run the check, undo.
+# The evidence file of the property is saved and restored: evidence must describe the unchanged tree.
 set -u
 P=$1; C=$2; T=${3:-quick}
 [ -f "$P" ] || P=/verif/seeded/$1/patch.diff
 cd /repo || exit 9
 git diff --quiet || { echo "repo dirty"; exit 9; }
 git apply "$P" || { echo "patch does not apply"; exit 9; }
+cp /verif/evidence/$C.json /verif/.build/evidence_$C.bak 2>/dev/null
 cd /verif && ./check $C $T; rc=$?
 git -C /repo checkout -- . ; git -C /repo status --short
+cp /verif/.build/evidence_$C.bak /verif/evidence/$C.json 2>/dev/null
 echo "MUTANT-RESULT $C exit=$rc"
